@@ -56,8 +56,9 @@ extern "C" void k_rank_to_ind()
   }
   vf_assert_id(ref == (long)r, "rankToIndice: indices are the mixed-radix digits of the rank");
 #if !VF_MINUS
+  // round trip = the digits identity above (ref == r) + indiceToRank evaluates that same mixed-radix value
   int back = g->indiceToRank(constvectint(ind, VF_ND));
-  vf_assert_id(back == r, "indiceToRank(rankToIndice(r)) == r");
+  vf_assert_id((long)back == ref, "indiceToRank(rankToIndice(r)) is the mixed-radix value of the digits (== r by the identity above)");
 #endif
   vf_witness();
 }
